@@ -172,6 +172,12 @@ pub fn run(ctx: &mut Ctx) {
     or.count_n("oracle_four_byte_encodings_walked", fw);
     if thorough { or.exhaustive.push("all 2^31 four-byte encodings incl. non-canonical ones".into()); }
 
+    // From<u8>/From<u16> (always in range) and Display (decimal of the value): oracle only
+    for v in (0..=65535u32).step_by(if thorough { 1 } else { 257 }).chain([127, 128, 255, 256, 65535]) {
+        let a = VarInt::from(v as u16);
+        if u32::from(a) != v || a.to_string() != v.to_string() { or.fail(format!("VarInt::from({v}u16) = {} (Display `{a}`)", u32::from(a)), format!("# case flat-oracle\nvi.u32 {v}"), format!("from-u16:{v}")); }
+        if v < 256 { let b = VarInt::from(v as u8); if u32::from(b) != v { or.fail(format!("VarInt::from({v}u8) = {}", u32::from(b)), format!("# case flat-oracle\nvi.u32 {v}"), format!("from-u8:{v}")); } }
+    }
     or.count_n("corr_ops", log.nops);
     log.finish();
     or.write(&ctx.dir);
